@@ -43,7 +43,7 @@ namespace detail
 	{
 		GLM_FUNC_QUALIFIER static vec<L, T, Q> call(vec<L, T, Q> const& v, T Mask, T Shift)
 		{
-			return (v & Mask) << Shift | (v & (~Mask)) >> Shift;
+			return (v & Mask) << Shift | (v & static_cast<T>(~Mask)) >> Shift;
 		}
 	};
 
@@ -297,7 +297,7 @@ namespace detail
 		GLM_STATIC_ASSERT(std::numeric_limits<T>::is_integer, "'bitfieldInsert' only accept integer values");
 
 		T const Mask = detail::mask(static_cast<T>(Bits)) << Offset;
-		return (Base & ~Mask) | ((Insert << static_cast<T>(Offset)) & Mask);
+		return (Base & static_cast<T>(~Mask)) | ((Insert << static_cast<T>(Offset)) & Mask);
 	}
 
 #if GLM_COMPILER & GLM_COMPILER_VC
